@@ -7,7 +7,7 @@ VocabSmall == {"INT1", "INT2", "STR", "IDx", "IDstruct", "IDall", "var", "def", 
 \* the full vocabulary: every token kind and every operator spelling (each has its own code path in an implementation)
 VocabFull == VocabSmall \cup {"or", "-", "/", "!=", "<", "<=", ">", ">=", "FLOAT", "false", "nil", "IDslice", "IDfirst", "IDlast", "INT01", "INT0x1"}
 Vocab == VocabSmall
-Spell(k) == CASE k = "INT1" -> <<49>> [] k = "INT2" -> <<50>> [] k = "STR" -> <<34, 115, 34>> [] k = "IDx" -> <<120>>
+Spell(k) == CASE k = "INT1" -> <<49>> [] k = "INT2" -> <<50>> [] k = "STR" -> <<34, 115, 92, 92, 34>> [] k = "IDx" -> <<120>>
               [] k = "IDstruct" -> <<115, 116, 114, 117, 99, 116>> [] k = "IDall" -> <<97, 108, 108>>
               [] k = "var" -> <<118, 97, 114>> [] k = "def" -> <<100, 101, 102>> [] k = "eval" -> <<101, 118, 97, 108>>
               [] k = "print" -> <<112, 114, 105, 110, 116>> [] k = "bind" -> <<98, 105, 110, 100>> [] k = "true" -> <<116, 114, 117, 101>>
@@ -32,7 +32,7 @@ PExpr(ts, i, minp) ==
   LET k == At(ts, i) IN
   LET left ==
     CASE k \in {"INT1", "INT2", "INT01", "INT0x1"} -> Ok(i + 1, Lit(IntV(IF k = "INT2" THEN 2 ELSE 1)))
-      [] k = "STR" -> Ok(i + 1, Lit(StrV(<<115>>)))
+      [] k = "STR" -> Ok(i + 1, Lit(StrV(<<115, 92>>)))
       [] k = "true" -> Ok(i + 1, Lit(BoolV(TRUE)))
       [] k = "false" -> Ok(i + 1, Lit(BoolV(FALSE)))
       [] k = "nil" -> Ok(i + 1, Lit(NilV))
